@@ -208,7 +208,10 @@ def unit_embedded(st, name):
     for stem, path in src.items():
         ids[stem] = SeqIO.read(path, "genbank").id
     scn = dict(family="embedded", registry=name)
-    keys = check_mapping(st, "embedded", scn, reg, set(src), set(src), ["zzz", "", "pYTK000", "DVK_ZZ", list(src)[0] + ".gb", list(src)[0].lower() + "x"])
+    first, last = sorted(src)[0], sorted(src)[-1]
+    absent = ["zzz", "", "pYTK000", "DVK_ZZ", first + ".gb", first.lower() + "x", " " + first, first + " "]
+    absent += [v for k in (first, last) for v in (k.lower(), k.upper(), k.swapcase()) if v not in src]
+    keys = check_mapping(st, "embedded", scn, reg, set(src), set(src), absent)
     for stem, rid in ids.items():
         if stem != rid:
             st.extra["embedded-stem-differs-from-record-id"] += 1
